@@ -75,6 +75,26 @@ Reach(front, seen) == LET nxt == UNION {LeftCalls(r) : r \in front} \ seen IN
 OnLeftCycle(r) == r \in Reach(LeftCalls(r), LeftCalls(r))
 LeftRecursive == {r \in RuleNames : OnLeftCycle(r)}
 
+\* ---- Dev_StaticLeader (KF-C03-1): the implementation grows seeds only at the rules marked `lrec` by its static analysis (one
+\* leader per cycle).  When an unmarked rule of a left cycle can be entered before the marked leader of that cycle, the documented
+\* semantics (grow at the rule through which the cycle is entered) and the implementation may part ways.
+RECURSIVE AllCalls(_)
+AllCalls(e) == CASE e.op = "call" -> {e.name}
+                 [] e.op \in Nary -> UNION {AllCalls(e.es[i]) : i \in 1..Len(e.es)}
+                 [] e.op = "join" -> AllCalls(e.e) \cup AllCalls(e.sep)
+                 [] e.op \in Unary -> AllCalls(e.e)
+                 [] OTHER -> {}
+CallsOf(r) == IF HasRule(r) THEN AllCalls(RuleExp(r)) \cap RuleNames ELSE {}
+ReachL(r) == Reach(LeftCalls(r), LeftCalls(r))
+SameCycle(r) == {q \in RuleNames : q \in ReachL(r) /\ r \in ReachL(q)}
+RECURSIVE ReachAvoid(_, _, _)
+ReachAvoid(front, seen, avoid) == LET nxt == (UNION {CallsOf(x) : x \in front} \ seen) \ avoid IN
+                                  IF nxt = {} THEN seen ELSE ReachAvoid(nxt, seen \cup nxt, avoid)
+StaticLeaderDeviates(start) ==
+    \E r \in LeftRecursive : /\ ~RuleRec(r).lrec
+                             /\ LET av == {q \in SameCycle(r) : RuleRec(q).lrec} IN
+                                  start \notin av /\ r \in ReachAvoid({start}, {start}, av)
+
 \* ---- can an expression succeed while contributing no item (its packed value is None)?
 \* (an option/path that binds a name yields a dict, never None; an optional can always be skipped)
 RECURSIVE NoItems(_, _)
